@@ -252,7 +252,7 @@ Section ClientFacts.
       by auto using allowed_referrers, zero_digest_valid.
     destruct (exch s _) as [s1 r].
     destruct (r_status r =? 200); [intro X; inv_pair X; auto with c13|].
-    destruct (r_status r =? 404); intro X; inv_pair X; auto with c13.
+    destruct (r_status r =? 404); [destruct (str_eqb _ _)|]; intro X; inv_pair X; auto with c13.
   Qed.
 
   Lemma man_push_allowed s rst d c rf s' rst' t res :
@@ -317,7 +317,7 @@ Section ClientFacts.
       destruct (exch s _) as [s1 r];
       (destruct (r_status r =? 200);
        [destruct (str_eqb _ _); intro X; inv_pair X; auto with c13|]);
-      destruct (r_status r =? 404); intro X; inv_pair X; auto with c13.
+      (destruct (r_status r =? 404); [destruct (str_eqb (r_body r) name_unknown)|]); intro X; inv_pair X; auto with c13.
   Qed.
 
   Notation run_op' := (run_op H parse_mt subject_of main other user_mts limit srv exch).
@@ -688,6 +688,7 @@ Definition contradicts_fetch (parse_mt : str -> option str) (manifest : bool) (k
   | KTypeOther => manifest = true /\ parse_mt (b "application/vnd.verif.other") <> Some (d_mt d)
   | KTypeGarbage => manifest = true /\ parse_mt (b "garbage/;=") = None
   | KTypeDrop => manifest = true /\ parse_mt [] = None
+  | KNameUnknown => True                         (* a 404 *)
   | KDigDrop | KLenDrop | KLocDrop => False      (* nothing the descriptor could contradict *)
   end.
 
@@ -709,6 +710,7 @@ Proof.
   - destruct Hc as [-> N1]. specialize (Hm eq_refl). congruence.
   - destruct Hc as [-> N1]. specialize (Hm eq_refl). congruence.
   - destruct Hc as [-> N1]. specialize (Hm eq_refl). congruence.
+  - discriminate Hs.
 Qed.
 
 Theorem blob_fetch_corrupted (srv : Type) repo (s : srv) k r0 d :
